@@ -402,11 +402,11 @@ func caseTx(h *H, r *hlib.Rng, variant string) {
 }
 
 type refTx struct {
-	inputs uint64
-	prev   []byte
-	vout   uint32
-	script []byte
-	seq    uint32
+	inputs   uint64
+	prev     []byte
+	vout     uint32
+	script   []byte
+	seq      uint32
 	scriptOK bool
 }
 
